@@ -272,6 +272,13 @@ func runC03SFU(c *Ctx, w *ATWorld) {
 		if len(w.Eng.OpenTxns()) > 0 {
 			fail("transaction_left_open", fmt.Sprint(w.Eng.OpenTxns()))
 		}
+		// every statement the executor issues on its own (savepoint, key query, release of the local locks)
+		// must go through: a failing ROLLBACK TO leaves whatever it was meant to release
+		for _, e := range w.Eng.Journal() {
+			if e.Err != "" {
+				fail("cleanup_statement_failed", fmt.Sprintf("%s: %s", e.SQL, e.Err))
+			}
+		}
 		_ = queriedAt
 		c.Out.Oracle(cid, class == "", class, fmt.Sprintf("%s | explicit=%v matched=%d reply=%s | %s | q=%s", detail, explicit, nm, reply, obs, q))
 		tag := "nontrivial=1"
